@@ -367,4 +367,193 @@ theorem accepted_only_if_authenticated_rc4 {P : Prims} {H : Hashes} (hp : PrimsA
     simp only [Decoder.keyOf, Decoder.mk', Nat.min_eq_left hn.2]
     rw [if_pos (by rw [hl]; exact hn.2)]
 
+/-! ## Passwords, revisions 5 and 6 -/
+
+theorem loop2B_length {H : Hashes} (hw : H.WF) (pw u : Bytes) (f : Nat) :
+    ∀ (i : Nat) (k x : Bytes), loop2B H pw u f i k = some x → x.length = 32 := by
+  induction f with
+  | zero => intro i k x h; cases h
+  | succ f ih =>
+    intro i k x h
+    simp only [loop2B] at h
+    have hk : KLen (round2B H pw u k).1 := by
+      unfold round2B KLen; simp only []
+      split
+      · exact Or.inl (hw.sha256_len _)
+      · split
+        · exact Or.inr (Or.inl (hw.sha384_len _))
+        · exact Or.inr (Or.inr (hw.sha512_len _))
+    generalize round2B H pw u k = r at h hk
+    obtain ⟨k', l⟩ := r
+    simp only [] at h hk
+    split at h
+    · injection h with h; subst h; rw [List.length_take]; unfold KLen at hk; omega
+    · exact ih _ _ _ h
+
+theorem hash56_length {H : Hashes} (hw : H.WF) (r : Nat) (pw salt u : Bytes) : (StdSec.hash56 H r pw salt u).length = 32 := by
+  unfold StdSec.hash56
+  split
+  · unfold hash2B
+    have hs := loop2B_isSome H pw u 288 0 (H.sha256 (pw ++ salt ++ u)) (by decide) (by decide)
+    cases hh : loop2B H pw u 288 0 (H.sha256 (pw ++ salt ++ u)) with
+    | none => rw [hh] at hs; cases hs
+    | some x => exact loop2B_length hw pw u 288 0 _ x hh
+  · exact hw.sha256_len _
+
+/-- **`from_password`, revisions 5 and 6, in the terms of the standard**: SASLprep + truncation to 127 bytes,
+    the user check with the user validation salt, else the owner check with the owner validation salt and
+    the 48 bytes of `/U`, the intermediate key from the key salt, AES-256-CBC (zero IV, no padding) unwrap
+    of `/UE` resp. `/OE`. The hash is SHA-256 (revision 5) or Algorithm 2.B (revision 6;
+    `revision6Kdf_eq` shows the loop of `revision_6_kdf` is the loop of the standard). -/
+theorem from_password_56 {P : Prims} {H : Hashes} (hp : PrimsAgree P H) (hw : H.WF) (d : CryptDict) (id pass : Bytes)
+    (kb : Nat) (m : Method) (hsel : selectMethod d = .ok (kb, m)) (hr : d.r = 5 ∨ d.r = 6)
+    (hu : d.u.length = 48) (ho : d.o.length = 48) (ue oe : Bytes) (hue : d.ue = some ue) (hoe : d.oe = some oe)
+    (huel : ue.length = 32) (hoel : oe.length = 32) :
+    fromPassword P d id pass = .ok (match prepPw H pass with
+      | none => .invalidPassword
+      | some p =>
+        if StdSec.hash56 H d.r p ((d.u.drop 32).take 8) [] = d.u.take 32 then
+          .decoder (Decoder.mk' (cbcDec (H.aesD (StdSec.hash56 H d.r p ((d.u.drop 40).take 8) [])) 2 zeroIV ue) 32 m d.encryptMetadata)
+        else if StdSec.hash56 H d.r p ((d.o.drop 32).take 8) d.u = d.o.take 32 then
+          .decoder (Decoder.mk' (cbcDec (H.aesD (StdSec.hash56 H d.r p ((d.o.drop 40).take 8) d.u)) 2 zeroIV oe) 32 m d.encryptMetadata)
+        else .invalidPassword) := by
+  unfold fromPassword
+  rw [hsel, Out.bind_ok]
+  simp only []
+  rw [if_neg (by omega), if_neg (by omega)]
+  unfold fromPassword56
+  rw [if_neg (by omega), if_neg (by omega), hp.saslprep]
+  unfold prepPw
+  cases hprep : H.prep pass with
+  | none => rfl
+  | some y =>
+    simp only [Option.map_some, hue, hoe]
+    have hpw : (if y.length > 127 then y.take 127 else y) = y.take 127 := by
+      split
+      · rfl
+      · rw [List.take_of_length_le (by omega)]
+    rw [hpw]
+    have hl : (y.take 127).length ≤ 127 := by rw [List.length_take]; omega
+    have hfin : ∀ ik wrapped : Bytes, wrapped.length = 32 →
+        (if wrapped.length ≠ 32 then (Out.err : Out PwResult)
+          else match cbcDecryptNoPad P ik (List.replicate 16 0) wrapped with
+            | .ok k => .ok (.decoder (Decoder.mk' k 32 m d.encryptMetadata))
+            | .err => .ok .invalidPassword
+            | .panic => .panic
+            | .oof => .oof) = .ok (.decoder (Decoder.mk' (cbcDec (H.aesD ik) 2 zeroIV wrapped) 32 m d.encryptMetadata)) := by
+      intro ik wrapped hwl
+      rw [if_neg (by omega)]
+      unfold cbcDecryptNoPad
+      rw [if_neg (by omega), hwl, cbcDecryptBlocks_eq hp]
+      rfl
+    simp only [hash56_eq hp hw d.r _ _ _ hl (by simp : ([] : Bytes).length ≤ 48),
+      hash56_eq hp hw d.r _ _ _ hl (by omega : d.u.length ≤ 48), Out.bind_ok]
+    by_cases h1 : StdSec.hash56 H d.r (y.take 127) ((d.u.drop 32).take 8) [] = d.u.take 32
+    · rw [if_pos (beq_iff_eq.mpr h1), if_pos h1]; exact hfin _ _ huel
+    · rw [if_neg (fun h => h1 (beq_iff_eq.mp h)), if_neg h1]
+      by_cases h2 : StdSec.hash56 H d.r (y.take 127) ((d.o.drop 32).take 8) d.u = d.o.take 32
+      · rw [if_pos (beq_iff_eq.mpr h2), if_pos h2]; exact hfin _ _ hoel
+      · rw [if_neg (fun h => h2 (beq_iff_eq.mp h)), if_neg h2]
+
+/-- **a wrong password is rejected with `InvalidPassword`** (revisions 5, 6): whenever Algorithm 2.A fails
+    (password not UTF-8 / prohibited by SASLprep, or neither hash matches) -/
+theorem wrong_password_rejected_56 {P : Prims} {H : Hashes} (hp : PrimsAgree P H) (hw : H.WF) (d : CryptDict) (id pass : Bytes)
+    (kb : Nat) (m : Method) (hsel : selectMethod d = .ok (kb, m)) (hr : d.r = 5 ∨ d.r = 6)
+    (hu : d.u.length = 48) (ho : d.o.length = 48) (ue oe : Bytes) (hue : d.ue = some ue) (hoe : d.oe = some oe)
+    (huel : ue.length = 32) (hoel : oe.length = 32)
+    (hwrong : auth56 H d.r d.o d.u oe ue pass = none) : fromPassword P d id pass = .ok .invalidPassword := by
+  rw [from_password_56 hp hw d id pass kb m hsel hr hu ho ue oe hue hoe huel hoel]
+  unfold auth56 at hwrong
+  cases hp' : prepPw H pass with
+  | none => rfl
+  | some p =>
+    rw [hp'] at hwrong
+    simp only [] at hwrong ⊢
+    by_cases h2 : StdSec.hash56 H d.r p ((d.o.drop 32).take 8) d.u = d.o.take 32
+    · rw [if_pos h2] at hwrong; cases hwrong
+    · rw [if_neg h2] at hwrong
+      by_cases h1 : StdSec.hash56 H d.r p ((d.u.drop 32).take 8) [] = d.u.take 32
+      · rw [if_pos h1] at hwrong; cases hwrong
+      · rw [if_neg h1, if_neg h2]
+
+/-- the `/U`, `/UE` a conforming writer produces (Algorithm 8) for the prepared user password `pU` -/
+structure WrittenU56 (H : Hashes) (d : CryptDict) (pU vs ks fileKey : Bytes) : Prop where
+  u : d.u = makeU56 H d.r pU vs ks
+  ue : d.ue = some (makeUE H d.r pU ks fileKey)
+  vs : vs.length = 8
+  ks : ks.length = 8
+  key : fileKey.length = 32
+
+theorem unwrap_wrap {H : Hashes} (hw : H.WF) (ik fileKey : Bytes) (hik : ik.length = 32) (hk : fileKey.length = 32) :
+    cbcDec (H.aesD ik) 2 zeroIV (cbcEnc (H.aesE ik) 2 zeroIV fileKey) = fileKey :=
+  cbcDec_cbcEnc (hw.aesE_len ik) (fun b hb => hw.aesD_E ik b (Or.inr hik) hb) 2 zeroIV fileKey (by simp [zeroIV]) (by omega)
+
+theorem makeU56_parts {H : Hashes} (hw : H.WF) (r : Nat) (p vs ks : Bytes) (hvs : vs.length = 8) (hks : ks.length = 8) :
+    (makeU56 H r p vs ks).length = 48 ∧ (makeU56 H r p vs ks).take 32 = StdSec.hash56 H r p vs [] ∧
+    ((makeU56 H r p vs ks).drop 32).take 8 = vs ∧ ((makeU56 H r p vs ks).drop 40).take 8 = ks := by
+  have hl := hash56_length hw r p vs []
+  unfold makeU56
+  refine ⟨by simp [hl, hvs, hks], ?_, ?_, ?_⟩
+  · rw [List.append_assoc, List.take_left' hl]
+  · rw [List.append_assoc, List.drop_left' hl, List.take_left' hvs]
+  · rw [show 40 = (StdSec.hash56 H r p vs [] ++ vs).length by simp [hl, hvs], List.drop_left, List.take_of_length_le (by omega)]
+
+/-- **the user password is accepted** (revisions 5, 6): the decoder's key is the file key the writer
+    wrapped into `/UE` — for every password SASLprep accepts (of any length: 127 bytes count), all salts,
+    every 32 byte file key, every `/O`, `/OE` of the right size. -/
+theorem user_password_accepted_56 {P : Prims} {H : Hashes} (hp : PrimsAgree P H) (hw : H.WF) (d : CryptDict) (id userPw : Bytes)
+    (kb : Nat) (m : Method) (hsel : selectMethod d = .ok (kb, m)) (hr : d.r = 5 ∨ d.r = 6)
+    (ho : d.o.length = 48) (oe : Bytes) (hoe : d.oe = some oe) (hoel : oe.length = 32)
+    (pU vs ks fileKey : Bytes) (hprep : prepPw H userPw = some pU) (w : WrittenU56 H d pU vs ks fileKey) :
+    fromPassword P d id userPw = .ok (.decoder (Decoder.mk' fileKey 32 m d.encryptMetadata)) := by
+  have ⟨hul, ht, hv, hk⟩ := makeU56_parts hw d.r pU vs ks w.vs w.ks
+  have huel : (makeUE H d.r pU ks fileKey).length = 32 := by
+    unfold makeUE
+    exact cbcEnc_length (hw.aesE_len _) 2 zeroIV fileKey (by simp [zeroIV]) (by rw [w.key])
+  rw [from_password_56 hp hw d id userPw kb m hsel hr (by rw [w.u]; exact hul) ho _ oe w.ue hoe huel hoel, hprep]
+  simp only []
+  rw [w.u, hv, ht, hk, if_pos rfl]
+  unfold makeUE
+  rw [unwrap_wrap hw _ _ (hash56_length hw ..) w.key]
+
+/-- the `/O`, `/OE` of Algorithm 9 for the prepared owner password `pO` -/
+structure WrittenO56 (H : Hashes) (d : CryptDict) (pO vs ks fileKey : Bytes) : Prop where
+  o : d.o = makeO56 H d.r pO vs ks d.u
+  oe : d.oe = some (makeOE H d.r pO ks d.u fileKey)
+  vs : vs.length = 8
+  ks : ks.length = 8
+  key : fileKey.length = 32
+
+/-- **the owner password is accepted** (revisions 5, 6) with the same file key. Only assumption beyond the
+    primitives: *if* the owner password also passes the user check (same password in both roles, or a
+    SHA-256 / 2.B collision), then `/UE` unwraps to the same key. -/
+theorem owner_password_accepted_56 {P : Prims} {H : Hashes} (hp : PrimsAgree P H) (hw : H.WF) (d : CryptDict) (id ownerPw : Bytes)
+    (kb : Nat) (m : Method) (hsel : selectMethod d = .ok (kb, m)) (hr : d.r = 5 ∨ d.r = 6)
+    (hu : d.u.length = 48) (ue : Bytes) (hue : d.ue = some ue) (huel : ue.length = 32)
+    (pO vs ks fileKey : Bytes) (hprep : prepPw H ownerPw = some pO) (w : WrittenO56 H d pO vs ks fileKey)
+    (hcoll : StdSec.hash56 H d.r pO ((d.u.drop 32).take 8) [] = d.u.take 32 →
+      cbcDec (H.aesD (StdSec.hash56 H d.r pO ((d.u.drop 40).take 8) [])) 2 zeroIV ue = fileKey) :
+    fromPassword P d id ownerPw = .ok (.decoder (Decoder.mk' fileKey 32 m d.encryptMetadata)) := by
+  have hl := hash56_length hw d.r pO vs d.u
+  have hol : d.o.length = 48 := by rw [w.o]; simp [makeO56, hl, w.vs, w.ks]
+  have ht : d.o.take 32 = StdSec.hash56 H d.r pO vs d.u := by
+    rw [w.o]; unfold makeO56; rw [List.append_assoc, List.take_left' hl]
+  have hv : (d.o.drop 32).take 8 = vs := by
+    rw [w.o]; unfold makeO56; rw [List.append_assoc, List.drop_left' hl, List.take_left' w.vs]
+  have hk : (d.o.drop 40).take 8 = ks := by
+    rw [w.o]; unfold makeO56
+    rw [show 40 = (StdSec.hash56 H d.r pO vs d.u ++ vs).length by simp [hl, w.vs], List.drop_left,
+      List.take_of_length_le (by rw [w.ks]; exact Nat.le_refl _)]
+  have hoel : (makeOE H d.r pO ks d.u fileKey).length = 32 := by
+    unfold makeOE
+    exact cbcEnc_length (hw.aesE_len _) 2 zeroIV fileKey (by simp [zeroIV]) (by rw [w.key])
+  rw [from_password_56 hp hw d id ownerPw kb m hsel hr hu hol ue _ hue w.oe huel hoel, hprep]
+  simp only []
+  by_cases h1 : StdSec.hash56 H d.r pO ((d.u.drop 32).take 8) [] = d.u.take 32
+  · rw [if_pos h1, hcoll h1]
+  · rw [if_neg h1, hv, ht, hk, if_pos rfl]
+    unfold makeOE
+    rw [unwrap_wrap hw _ _ (hash56_length hw ..) w.key]
+
 end Crypt
+
